@@ -179,6 +179,8 @@ pub fn gen_all_cases(r: &mut Rng, n: usize, n_any: usize, thorough: bool) -> Vec
         if r.chance(0.5) { for p in polys.iter_mut() { p.reverse(); } }
         for p in polys.iter_mut() { let k = r.below(p.len() as u64) as usize; p.rotate_left(k); }
         for j in (1..polys.len()).rev() { let k = r.below(j as u64 + 1) as usize; polys.swap(j, k); }
+        // the same points with zeros written as -0.0 (all the shapes touch the axes)
+        if r.chance(0.3) { for v in polys.iter_mut().flatten() { for c in v.iter_mut() { if *c == 0.0 && r.chance(0.5) { *c = -0.0; } } } }
         let cfg = Cfg { ci: r.chance(0.5), rr: *r.pick(&[0usize, 1, 2, 5, 32]), xr: *r.pick(&[0usize, 1, 2, 3, 8, 32]), yr: *r.pick(&[0usize, 1, 2, 4, 32]), mi: 60, tol: 10f64.powi(r.range(if thorough { -10 } else { -8 }, -6) as i32) };
         if i % 3 != 2 {
             let quadratic = r.chance(0.5);
